@@ -21,6 +21,10 @@ def run(tier, seed):
             for c in cs:
                 if c["comp"] == "S":
                     fs.write("p%d %s %s %s %s\n" % (n, c["moving"], c["rel"], c["a"], c["b"]))
+                    if c["b"] in ("MVZ", "MVWm"):        # few coincidences of this kind: three base points each
+                        for _ in range(2):
+                            n += 1
+                            fs.write("p%d %s %s %s %s\n" % (n, c["moving"], c["rel"], c["a"], c["b"]))
                 else:
                     ft.write("p%d %s %s %s %s %s\n" % (n, c["comp"], c["moving"], c["rel"], c["a"], c["b"]))
                 n += 1
